@@ -187,6 +187,16 @@ fn check_view_range(
                 ctx.dig.write(&r.0);
                 ctx.dig.write(&r.1);
             }
+            let keys = catch_unwind(AssertUnwindSafe(|| with_view(app, path, |v| v.range_keys(start, end, order).collect::<Vec<_>>())));
+            let vals = catch_unwind(AssertUnwindSafe(|| with_view(app, path, |v| v.range_values(start, end, order).collect::<Vec<_>>())));
+            let exp_keys: Vec<Vec<u8>> = exp.iter().map(|r| r.0.clone()).collect();
+            let exp_vals: Vec<Vec<u8>> = exp.iter().map(|r| r.1.clone()).collect();
+            if keys.as_ref().ok() != Some(&exp_keys) || vals.as_ref().ok() != Some(&exp_vals) {
+                ctx.fail(
+                    "C07.range_mismatch",
+                    format!("view prefix {} range_keys / range_values({:?},{:?},desc={}) disagree with the model window", short(&prefix), start.map(hex), end.map(hex), desc),
+                );
+            }
             if got != exp {
                 ctx.fail(
                     "C07.range_mismatch",
@@ -332,7 +342,6 @@ impl Engine for Pfx07 {
                 break;
             }
             ctx.stats.steps += 1;
-            let before = raw.clone();
             match op {
                 Op::Set { view, k, v } => {
                     let vi = view % nv;
@@ -492,7 +501,6 @@ impl Engine for Pfx07 {
                 ctx.fail(class, format!("after {:?}: base differs from the raw-key model: {}", short_op(op), diffs.join("; ")));
                 break;
             }
-            let _ = before;
             // after every write: every view equals its model window (full range, one order per step)
             if matches!(op, Op::Set { .. } | Op::Remove { .. } | Op::RawSet { .. } | Op::RawRemove { .. } | Op::RawNear { .. }) {
                 let desc = ctx.stats.steps % 2 == 0;
